@@ -27,6 +27,7 @@ type c04Prog struct {
 	Place  string `json:"place"` // start | middle | end (where the escape sits in the value)
 	Frag   int    `json:"frag,omitempty"`
 	GW     int    `json:"gw,omitempty"`
+	Extra  []KV   `json:"extra,omitempty"` // companion query parameters (other knobs of the same route)
 }
 
 type c04 struct{ baseCheck }
@@ -40,9 +41,9 @@ func (c04) Rule() string {
 }
 func (c04) Runs(tier string) int {
 	if tier == "thorough" {
-		return 120000
+		return 400000
 	}
-	return 5000
+	return 15000
 }
 func (c04) RequiredProbes(string) []string { return []string{"reached_controller"} }
 
@@ -63,7 +64,24 @@ func (c04) Gen(seed uint64, run int, tier string) *core.Case {
 	cfg := swarmCfg(r, 2)
 	cfg.Versioning = true
 	p := c04Prog{Route: x.route, Param: x.param, Target: c04Targets[r.IntN(len(c04Targets))], Enc: c04Encs[r.IntN(len(c04Encs))],
-		Depth: 1 + r.IntN(6), Place: []string{"start", "middle", "end"}[r.IntN(3)], Frag: r.IntN(4), GW: r.IntN(cfg.Instances)}
+		Depth: []int{1, 1, 1, 1, 2, 3, 4, 6}[r.IntN(8)], Place: []string{"start", "middle", "end"}[r.IntN(3)], Frag: r.IntN(4), GW: r.IntN(cfg.Instances)}
+	// companion parameters: the attacked parameter rarely acts alone
+	if strings.HasPrefix(x.route, "List") {
+		if r.IntN(3) != 0 {
+			p.Extra = append(p.Extra, KV{K: "max-keys", V: []string{"1", "1", "2", "1000", "0"}[r.IntN(5)]})
+		}
+		if r.IntN(3) == 0 {
+			p.Extra = append(p.Extra, KV{K: "delimiter", V: "/"})
+		}
+		if r.IntN(4) == 0 {
+			p.Extra = append(p.Extra, KV{K: "max-uploads", V: "1"}, KV{K: "max-parts", V: "1"})
+		}
+	}
+	if x.route == "GetObject" || x.route == "HeadObject" {
+		if r.IntN(3) == 0 {
+			p.Extra = append(p.Extra, KV{K: "partNumber", V: "1"})
+		}
+	}
 	c := &core.Case{Check: "C04", Property: "C04", Seed: seed, Cfg: cfg}
 	c.SetP(&p)
 	return c
@@ -317,6 +335,11 @@ func (c04) Exec(c *core.Case) (out *core.Outcome) {
 		c04SetQuery(rq, p.Param, dec)
 	default:
 		c04SetQuery(rq, p.Param, dec)
+	}
+	for _, kv := range p.Extra {
+		if kv.K != p.Param {
+			c04SetQuery(rq, kv.K, kv.V)
+		}
 	}
 	if rq.RawPath != "" {
 		if u, err := url.QueryUnescape(rq.RawPath); err == nil {
